@@ -994,6 +994,14 @@ def rule_r12(prog, res):
     res.floor('R12', 'functions that call a default_factory', n, 1)
 
 
+def rule_r13(prog, res):
+    from . import c05
+    from ..report import Result
+    res.share('R13', 'a conformant call is not refused on the wire: the '
+              'readers accept exactly max_occurs / min_occurs items, as the '
+              'direct call does (C05-R25)', 'C05', c05.rule_r25, prog, Result)
+
+
 def run(prog, res, tier):
     res.run_rule(rule_r1, prog, res)
     res.run_rule(rule_r2, prog, res)
@@ -1007,6 +1015,7 @@ def run(prog, res, tier):
     res.run_rule(rule_r10, prog, res)
     res.run_rule(rule_r11, prog, res)
     res.run_rule(rule_r12, prog, res)
+    res.run_rule(rule_r13, prog, res)
 
 
 _N = 'spyne/server/null.py'
